@@ -116,10 +116,12 @@ def main(tier, seed, replay=None):
         else:
             taskleg.showincludes_leg(run, n2)
             taskleg.depfile_leg(run, n2)
+            run.coverage["black_box_depfile_projects"] = taskleg.depfile_random_leg(run, n2, random.Random(seed + 78), 12 if tier == "quick" else 120)
+            run.coverage["black_box_showincludes_plans"] = taskleg.showincludes_random_leg(run, n2, random.Random(seed + 77), 6 if tier == "quick" else 40)
             run.coverage["black_box_task_leg"] = "deps=msvc and depfile projects run through the real binary (run_task / read_depfile)"
         n, bad = showincludes_suite(run, random.Random(seed), har, drv, tier)
         run.coverage["showincludes_cases"] = n
         run.coverage["showincludes_disagreements"] = bad
 
-    return world_check(PROP, THEOREMS, tier, seed, [monitor_showincludes, monitor_missing_dep_never_fails, monitor_null_build],
+    return world_check(PROP, THEOREMS, tier, seed, [monitor_showincludes, monitor_missing_dep_never_fails, monitor_null_build, monitor_one_node_per_location],
                        replay=replay, note="F10: `-t restat` (adopt) empties the discovered list of the steps it marks up to date")
